@@ -234,6 +234,14 @@ func (l *lexer) next(allowRegex bool) token {
 		return l.newToken(tt)
 	}
 
+	if lookupSymbol2(ch) != nil {
+		// The first half of a two-character symbol without
+		// its second half (e.g. a lone '!'). It is not an
+		// operator, and scanName stops in front of it, so
+		// return it as a one-character name.
+		return l.newToken(typeName)
+	}
+
 	if ch == '"' || ch == '\'' {
 		l.ignore()
 		return l.scanString(ch)
@@ -476,10 +484,13 @@ func (l *lexer) acceptRunes2(r1, r2 rune) bool {
 }
 
 func (l *lexer) accept(isValid func(rune) bool) bool {
+	// Restore the position and the width on failure so that
+	// the caller can still back up over the previous rune.
+	current, width := l.current, l.width
 	if isValid(l.nextRune()) {
 		return true
 	}
-	l.backup()
+	l.current, l.width = current, width
 	return false
 }
 
